@@ -152,10 +152,19 @@ print("RESULT" + json.dumps([do_call(tuple(c)) for c in calls]))
 '''
 
 
-def run_fresh(calls):
-    """Run one history (list of calls) in ONE new interpreter with the network blocked; returns the outcomes."""
+OTHER_ENV = {'LC_ALL': 'C', 'LANG': 'C', 'PYTHONUTF8': '0', 'PYTHONCOERCECLOCALE': '0', 'TZ': 'Pacific/Kiritimati',
+             'PYTHONOPTIMIZE': '1'}
+
+
+def run_fresh(calls, other_env=False):
+    """Run one history (list of calls) in ONE new interpreter with the network blocked; returns the outcomes.  other_env:
+    a fresh process of another kind - plain C locale without UTF-8 mode (files are then read as ASCII unless the library
+    says otherwise), another time zone, asserts compiled away: "a fresh process" is any fresh process."""
+    env = dict(os.environ)
+    if other_env:
+        env.update(OTHER_ENV)
     p = subprocess.run([sys.executable, '-c', FRESH_SNIPPET % {'verif': VERIF}], input=json.dumps([list(c) for c in calls]),
-                       env=dict(os.environ), stdout=subprocess.PIPE, stderr=subprocess.PIPE, text=True, cwd=VERIF)
+                       env=env, stdout=subprocess.PIPE, stderr=subprocess.PIPE, text=True, cwd=VERIF)
     for line in p.stdout.splitlines():
         if line.startswith('RESULT'):
             return json.loads(line[6:])
@@ -170,6 +179,19 @@ def fresh_worker(ctx, payload):
     ctx.label('fresh-process-calls', len(calls))
 
 
+def other_env_worker(ctx, payload):
+    """One call per bundled file in a fresh process of another kind (OTHER_ENV): the same outcome as in the usual one."""
+    calls, fresh = payload
+    for c in calls:
+        got = run_fresh([c], other_env=True)[0]
+        want = fresh[json.dumps(list(c))]
+        ctx.count()
+        ctx.label('fresh-process-of-another-kind')
+        if got != want:
+            ctx.violation(V('same-as-fresh-process', ['environment-dependent', c[0], 'got-' + klass(got).split(':')[-1]],
+                            {'calls': [list(c)], 'fresh': {json.dumps(list(c)): want}, 'other_env': True}, got, want))
+
+
 def key_of(c):
     return (c[0], c[1], c[2])
 
@@ -180,6 +202,12 @@ def examine(case):
     clear_caches()
     out = []
     hist = []
+    if case.get('other_env'):
+        c = tuple(case['calls'][0])
+        got, want = run_fresh([c], other_env=True)[0], run_fresh([c])[0]
+        if got != want:
+            out.append(V('same-as-fresh-process', ['environment-dependent', c[0], 'got-' + klass(got).split(':')[-1]], case, got, want))
+        return out
     if case.get('fact') == 'outcome-class':
         c = tuple(case['calls'][0])
         o = run_fresh([c])[0]
@@ -343,6 +371,15 @@ def run(ctx):
         ctx.violation(V('references-resolve', ['outcome-class', c[0], klass(o).split(':')[-1]],
                         {'calls': [list(c)], 'fresh': {}, 'fact': 'outcome-class'}, o, sorted(allowed)))
     ctx.label('outcome-class-facts', len(allcalls))
+    # 2c. a fresh process of another kind (C locale without UTF-8 mode, another time zone, python -O): one call per file
+    per_file = {}
+    for c in allcalls:
+        if not c[3] and '\\' not in c[1] and not c[1].startswith('../'):
+            per_file.setdefault(c[1], c)
+            if c[0] == 'va':
+                per_file.setdefault(c[2], c)
+    oc = sorted(per_file.values())
+    run_shards(ctx, 'checks.c19', 'other_env_worker', [(oc[i::16], fresh) for i in range(16)], disjoint=True)
     # 3. histories
     rng = random.Random(derive_seed(ctx.seed, 'C19'))
     false_keys = [c for c in allcalls if fresh[json.dumps(list(c))] != 'True' and not c[3]]
